@@ -47,7 +47,12 @@ func (w *World) applySweeps() {
 	sort.Strings(keys)
 	for _, sw := range w.cs.Sweeps {
 		files := map[string]bool{}
+		only := map[string]bool{} // +Name / +Type.Method: restrict the sweep to these functions
 		for _, f := range sw.Files {
+			if strings.HasPrefix(f, "+") {
+				only[f[1:]] = true
+				continue
+			}
 			files[f] = true
 		}
 		for _, k := range keys {
@@ -57,6 +62,9 @@ func (w *World) applySweeps() {
 			}
 			base := filepath.Base(w.fset.Position(fi.Decl.Pos()).Filename)
 			if !files[base] && !files["*"] {
+				continue
+			}
+			if len(only) > 0 && !only[strings.TrimPrefix(k, sw.Pkg+".")] {
 				continue
 			}
 			fc := w.cs.Funcs[k]
